@@ -134,6 +134,7 @@ pub fn statement_corpus() -> Vec<&'static str> {
         "SELECT k FROM t WHERE k NOT IN ( 'a' , 'b' )",
         "SELECT v * 2 - 1 , v / 2 , - v FROM t",
         "SELECT ( v + 1 ) * 2 FROM t LIMIT 3",
+        "SELECT v - - 1 , v * - 2 , v = - 1 FROM t WHERE v > - 2 AND v < - r OR v != - 3",
         "SELECT v :: text , s :: int , r :: real FROM t",
         "SELECT a [ 1 ] , array_length ( a ) FROM t",
         "SELECT ARRAY [ v , 1 ] FROM t",
